@@ -1,6 +1,7 @@
 use crate::infra::{Run, Violation};
 use serde_json::Value;
 
+pub mod c02;
 pub mod c03;
 pub mod c05;
 pub mod c05b;
@@ -10,6 +11,7 @@ pub mod c12;
 pub mod c13;
 pub mod c14;
 pub mod c15;
+pub mod c19;
 pub mod c20;
 pub mod cfgcheck;
 pub mod valspace;
@@ -23,6 +25,7 @@ pub struct Entry {
 
 pub fn lookup(id: &str) -> Option<Entry> {
     Some(match id {
+        "C02" => Entry { level: "fault_enumeration", run: c02::run, replay: c02::replay },
         "C03" => Entry { level: "model_checking", run: c03::run, replay: c03::replay },
         "C05" => Entry { level: "model_checking", run: c05::run, replay: c05::replay },
         "C06" => Entry { level: "exploration", run: c06::run, replay: c06::replay },
@@ -32,6 +35,7 @@ pub fn lookup(id: &str) -> Option<Entry> {
         "C14" => Entry { level: "model_checking", run: c14::run, replay: c14::replay },
         "C15" => Entry { level: "exploration", run: c15::run, replay: c15::replay },
         "C16" => Entry { level: "exploration", run: c16::run, replay: c16::replay },
+        "C19" => Entry { level: "model_checking", run: c19::run, replay: c19::replay },
         "C20" => Entry { level: "model_checking", run: c20::run, replay: c20::replay },
         _ => return None,
     })
